@@ -21,7 +21,7 @@ def main():
                         if os.path.exists(os.path.join(src, f)):
                             shutil.copy(os.path.join(src, f), os.path.join(dst, f))
         args = ['%s-%s' % (p, k) for p in args[1:] for k in '123' if os.path.isdir(os.path.join(D, '%s-%s' % (p, k)))]
-    ids = args or sorted(d for d in os.listdir(D) if os.path.isdir(os.path.join(D, d)))
+    ids = [] if args == ['--readme-only'] else (args or sorted(d for d in os.listdir(D) if os.path.isdir(os.path.join(D, d))))
     rf = os.path.join(D, 'results.json')
     res = json.load(open(rf)) if os.path.exists(rf) else {}
     for sid in ids:
@@ -33,7 +33,13 @@ def main():
                         stale=sorted(set(re.findall(r"^STALE-PROOF property=\S+ \([^)]*\) ([^:]+):", out, re.M))),
                         other=[l[:200] for l in out.splitlines() if l.startswith(('UNDECIDED', 'CHECKER-ERROR'))][:5], summary=summ[-1] if summ else out[-300:])
         print(sid, p.returncode, res[sid]['violations'], res[sid]['stale'], flush=True)
-        json.dump(res, open(rf, 'w'), indent=1, sort_keys=True)
+        import fcntl
+        with open(rf + '.lock', 'w') as lk:          # several instances may run side by side: merge under a lock
+            fcntl.flock(lk, fcntl.LOCK_EX)
+            cur = json.load(open(rf)) if os.path.exists(rf) else {}
+            cur[sid] = res[sid]
+            res = cur
+            json.dump(res, open(rf, 'w'), indent=1, sort_keys=True)
     lines = ["# Behaviour-preserving changes and what the checks say about them", "",
              "Each directory holds `patch.diff` and the author's `notes.md` (why the change keeps every observable behaviour, how that was "
              "compared). `tools/harmless_table.py` applies each patch to a scratch worktree and runs the quick check of the property whose "
